@@ -112,11 +112,11 @@ impl UsesLifetimes for Lifetime {
 }
 
 uses_lifetimes!(syn::AngleBracketedGenericArguments, args);
-uses_lifetimes!(syn::AssocType, ty);
+uses_lifetimes!(syn::AssocType, generics, ty);
 uses_lifetimes!(syn::BareFnArg, ty);
 uses_lifetimes!(syn::BoundLifetimes, lifetimes);
 uses_lifetimes!(syn::ConstParam, ty);
-uses_lifetimes!(syn::Constraint, bounds);
+uses_lifetimes!(syn::Constraint, generics, bounds);
 uses_lifetimes!(syn::DataEnum, variants);
 uses_lifetimes!(syn::DataStruct, fields);
 uses_lifetimes!(syn::DataUnion, fields);
